@@ -13,7 +13,7 @@ SPEC = {
     'deductive': [("haversine = great-circle distance (trig atoms)", 'haversine', r'.'), ("destination (direct problem) identities", 'destination', r'.')],
     'bounded': [('primitives-vs-3D-reference', geo_suites.case_C14, 3000, 300000,
                  "segment lengths log-uniform 0.1 m .. 5 km at 9 anchors (lat 0, +-35, +-59, 50.9, -23.5, 69.65, -54.8), query points within a few segment lengths, "
-                 "constrained and unconstrained (great-circle foot, signed position) point-to-segment, project(), zero-length segments, end-point swap, segment pairs (one in four CONNECTED: an end point shared exactly, all four combinations) with the reported points required to lie at the reported relative positions, "
+                 "constrained and unconstrained (great-circle foot, signed position) point-to-segment, project(), zero-length segments, end-point swap, directed probes on 1-8 km segments (foot decimetres from the first end point) and on 20-150 km links (query kilometres off), segment pairs (one in four CONNECTED: an end point shared exactly, all four combinations) with the reported points required to lie at the reported relative positions, "
                  "box radii 1 m .. 100 km with the extreme-longitude and cardinal points of the disc plus 72 sampled directions; "
                  "non-trivial = projection strictly inside the segment and query off the segment", "")],
     'extra_builders': {'haversine': lambda prog, tier: [GD.vc_haversine(prog)], 'destination': lambda prog, tier: [GD.vc_destination(prog)]},
